@@ -342,6 +342,14 @@ Definition latest_ckpt_cache (bmax_events bmax_bytes : N) (comp full : sfile) (m
     end
   end.
 
+(* compaction_status_v1.latest_checkpoint: the checkpoint sidecar (as found, or built from the full
+   sidecar's line headers) when it yields a checkpoint, else the replay (need_replay) *)
+Definition status_ckpt_fast (me mb : N) (comp full : sfile) (l : log) : option N :=
+  match latest_ckpt_cache me mb comp full U64MAX with
+  | CkSome (Some f) => Some (fseq f)
+  | _ => option_map fseq (latest_ckpt U64MAX None (replay_fast full l))
+  end.
+
 (* ---------- compaction_cut_points_v1 (truth) ---------- *)
 Record cutpoint := { cp_ordinal : N; cp_to_seq : N; cp_already : bool; cp_latest : option N }.
 Definition messages (l : log) : list frame := filter is_message l.
@@ -535,7 +543,8 @@ Definition or_hang {A} (enc : A -> list N) (o : option A) : list N :=
   match o with None => HANG | Some a => enc a end.
 
 (* loops: [compile_input; compaction_status; cursor_status; cursor_rotate; selection_status] *)
-Record consts := { k_loops : list cfg; k_max_keys : N; k_inflight_events : N; k_inflight_bytes : N }.
+Record consts := { k_loops : list cfg; k_max_keys : N; k_inflight_events : N; k_inflight_bytes : N;
+                   k_ckpt_events : N; k_ckpt_bytes : N (* latest_compaction_checkpoint_before_or_at_seq_v1 *) }.
 Definition dcfg : cfg := {| l_initial := 1; l_max_bytes := 1; l_max_events := 1; l_cap_break := true;
                             l_clears := true; l_incomplete_fallback := true |}.
 Definition loop_n (k : consts) (i : nat) : cfg := nth i (k_loops k) dcfg.
@@ -582,7 +591,9 @@ Record case := {
                                  (no other cache can trigger a rebuild first) *)
   c_truth : list N;           (* observed with continuity_streams/ removed *)
   c_fast : list N;            (* observed with the caches as found *)
-  c_ord : list ord_step       (* observed write steps of the ordinal index in this history (first case of a history only) *)
+  c_ord : list ord_step;      (* observed write steps of the ordinal index in this history (first case of a history only) *)
+  c_comp : option (option (list rline))   (* Some = the checkpoint sidecar as found, for QLatestCkpt cases where nothing can
+                                             rebuild the caches before the look-up; None = not compared *)
 }.
 
 Definition case_full (c : case) : sfile := option_map (map (resolve_line (c_log c))) (c_full c).
@@ -596,7 +607,13 @@ Definition check_case (k : consts) (c : case) : bool :=
            | None => true
            end
       else true)
-  && forallb ord_step_ok (c_ord c).
+  && forallb ord_step_ok (c_ord c)
+  && match c_comp c, c_query c, case_full c with
+     | Some comp, QLatestCkpt, full =>
+       lN_eqb (enc_opt (status_ckpt_fast (k_ckpt_events k) (k_ckpt_bytes k)
+                          (option_map (map (resolve_line (c_log c))) comp) full (c_log c))) (c_fast c)
+     | _, _, _ => true
+     end.
 
 Definition model_obs (k : consts) (c : case) : list N :=
   q_truth k (c_log c) (c_query c) ++ [555555]
